@@ -655,6 +655,7 @@ PURE_CALLS = {"len", "int", "float", "str", "bool", "tuple", "list", "range", "a
               "np.transpose", "np.stack", "np.concatenate", "np.min", "np.max", "np.sum", "np.floor", "np.ceil", "np.abs",
               "np.sqrt", "np.repeat", "np.reshape", "np.where", "np.nonzero", "np.isclose", "np.all", "np.any",
               "np.linspace", "np.full", "np.zeros_like", "np.ones_like", "np.sort", "np.round", "os.path.dirname",
+              "os.getcwd",
               # the repository's FAB-header accessors are functions of their string argument (inventory rule C14)
               "shape_from_header", "indices_from_header", "indexes_and_shape_from_header"}
 
@@ -961,11 +962,153 @@ class _Idioms(ast.NodeTransformer):
                 n.args = list(n.args[0].args) + list(n.args[1:])
                 self.applied.append("join-flatten")
                 ast.fix_missing_locations(n)
+        syn = self._synonym(n, f)
+        if syn is not None:
+            return ast.fix_missing_locations(ast.copy_location(syn, n))
         if f == "os.path.dirname" and len(n.args) == 1 and not n.keywords:
             new = ast.Subscript(value=ast.Call(func=_dotted("os.path.split"), args=n.args, keywords=[]),
                                 slice=ast.Constant(value=0), ctx=ast.Load())
             self.applied.append("dirname")
             return ast.fix_missing_locations(ast.copy_location(new, n))
+        return n
+
+    NP = ("np", "numpy")
+
+    def _synonym(self, n, f):
+        """library synonyms with the same meaning for every input the repository passes: one canonical spelling (the
+        one the repository itself uses), so that rules and interpreters know a single form"""
+        kw = {k.arg: k.value for k in n.keywords if k.arg}
+        mod, _, name = f.rpartition(".")
+        # np.reshape(a, s, order=..)  ->  a.reshape(s, order=..)
+        if mod in self.NP and name == "reshape" and len(n.args) == 2 and set(kw) <= {"order"}:
+            self.applied.append("np.reshape")
+            return ast.Call(func=ast.Attribute(value=n.args[0], attr="reshape", ctx=ast.Load()), args=[n.args[1]],
+                            keywords=n.keywords)
+        # np.fromfile(f, dtype=D, count=N)  ->  np.fromfile(f, D, N)
+        if mod in self.NP and name == "fromfile" and n.args and kw and set(kw) <= {"dtype", "count"} and \
+                len(n.args) + len(kw) <= 3 and not (len(n.args) == 1 and "count" in kw and "dtype" not in kw):
+            args = list(n.args)
+            if len(args) == 1 and "dtype" in kw:
+                args.append(kw.pop("dtype"))
+            if len(args) == 2 and "count" in kw:
+                args.append(kw.pop("count"))
+            if not kw:
+                self.applied.append("fromfile-keywords")
+                return ast.Call(func=n.func, args=args, keywords=[])
+        # str(b, 'ascii')  ->  b.decode('ascii')
+        if f == "str" and len(n.args) in (2, 3) and not n.keywords:
+            self.applied.append("str-decode")
+            return ast.Call(func=ast.Attribute(value=n.args[0], attr="decode", ctx=ast.Load()), args=n.args[1:], keywords=[])
+        # next(x) / iter(x)  ->  x.__next__() / x.__iter__()
+        if f in ("next", "iter") and len(n.args) == 1 and not n.keywords:
+            self.applied.append(f)
+            return ast.Call(func=ast.Attribute(value=n.args[0], attr=f"__{f}__", ctx=ast.Load()), args=[], keywords=[])
+        # np.nonzero(c)  ->  np.where(c)
+        if mod in self.NP and name == "nonzero" and len(n.args) == 1 and not n.keywords:
+            self.applied.append("nonzero")
+            return ast.Call(func=_dotted(f"{mod}.where"), args=n.args, keywords=[])
+        # np.any(X) / np.all(X)  ->  X.any() / X.all()   (X an array expression)
+        if mod in self.NP and name in ("any", "all") and len(n.args) == 1 and not n.keywords and \
+                isinstance(n.args[0], (ast.Call, ast.Compare, ast.BinOp, ast.UnaryOp, ast.Subscript)):
+            self.applied.append("np." + name)
+            return ast.Call(func=ast.Attribute(value=n.args[0], attr=name, ctx=ast.Load()), args=[], keywords=[])
+        # X.min(..) / X.max(..)  ->  np.min(X, ..) / np.max(X, ..)
+        if isinstance(n.func, ast.Attribute) and n.func.attr in ("min", "max") and \
+                not (isinstance(n.func.value, ast.Name) and n.func.value.id in ("np", "numpy", "math", "builtins")):
+            self.applied.append("method-" + n.func.attr)
+            return ast.Call(func=_dotted(f"np.{n.func.attr}"), args=[n.func.value] + list(n.args), keywords=n.keywords)
+        # X.ravel(..).tobytes()  ->  X.flatten(..).tobytes()   (the bytes of the same element order)
+        if isinstance(n.func, ast.Attribute) and n.func.attr in ("tobytes", "tofile") and isinstance(n.func.value, ast.Call) \
+                and isinstance(n.func.value.func, ast.Attribute) and n.func.value.func.attr == "ravel":
+            n.func.value.func.attr = "flatten"
+            self.applied.append("ravel-bytes")
+            return n
+        # ' '.join(str(v) for v in [a, b, c]) / ' '.join([str(a), f'{b}', 'x'])  ->  f'{a} {b} x'
+        if isinstance(n.func, ast.Attribute) and n.func.attr == "join" and isinstance(n.func.value, ast.Constant) \
+                and isinstance(n.func.value.value, str) and len(n.args) == 1 and not n.keywords:
+            a = n.args[0]
+            elems = None
+            if isinstance(a, (ast.ListComp, ast.GeneratorExp)) and len(a.generators) == 1 and not a.generators[0].ifs \
+                    and isinstance(a.generators[0].target, ast.Name) and \
+                    isinstance(a.generators[0].iter, (ast.List, ast.Tuple)) and 0 < len(a.generators[0].iter.elts) <= 8 \
+                    and not any(isinstance(e, ast.Starred) for e in a.generators[0].iter.elts):
+                v = a.generators[0].target.id
+                elems = []
+                for e in a.generators[0].iter.elts:
+                    elems.append(_SubstLoad(v, e).visit(copy.deepcopy(a.elt)))
+            elif isinstance(a, (ast.List, ast.Tuple)) and 0 < len(a.elts) <= 8 and all(
+                    (isinstance(e, ast.Call) and isinstance(e.func, ast.Name) and e.func.id == "str" and len(e.args) == 1)
+                    or isinstance(e, ast.JoinedStr) or (isinstance(e, ast.Constant) and isinstance(e.value, str))
+                    for e in a.elts):
+                elems = list(a.elts)
+            if elems is not None:
+                parts = []
+                for i, e in enumerate(elems):
+                    if i and n.func.value.value:
+                        parts.append(ast.Constant(value=n.func.value.value))
+                    if isinstance(e, ast.Call) and isinstance(e.func, ast.Name) and e.func.id == "str" and len(e.args) == 1 \
+                            and not e.keywords:
+                        parts.append(ast.FormattedValue(value=e.args[0], conversion=-1, format_spec=None))
+                    elif isinstance(e, ast.JoinedStr):
+                        parts.extend(e.values)
+                    elif isinstance(e, ast.Constant) and isinstance(e.value, str):
+                        parts.append(e)
+                    else:
+                        parts.append(ast.FormattedValue(value=e, conversion=-1, format_spec=None))
+                # adjacent constants merge
+                merged = []
+                for x in parts:
+                    if merged and isinstance(x, ast.Constant) and isinstance(merged[-1], ast.Constant):
+                        merged[-1] = ast.Constant(value=merged[-1].value + x.value)
+                    else:
+                        merged.append(x)
+                self.applied.append("join-literal")
+                return ast.JoinedStr(values=merged)
+        # itertools.repeat(x, n)  ->  [x] * n   (as an iterable)
+        if f in ("itertools.repeat", "repeat") and len(n.args) == 2 and not n.keywords:
+            self.applied.append("repeat")
+            return ast.BinOp(left=ast.List(elts=[n.args[0]], ctx=ast.Load()), op=ast.Mult(), right=n.args[1])
+        # '..{}..{:x}..'.format(a, b)  ->  f'..{a}..{b:x}..'
+        if isinstance(n.func, ast.Attribute) and n.func.attr == "format" and isinstance(n.func.value, ast.Constant) \
+                and isinstance(n.func.value.value, str) and not n.keywords and \
+                not any(isinstance(a, ast.Starred) for a in n.args):
+            import string
+            parts, auto, ok = [], 0, True
+            try:
+                parsed = list(string.Formatter().parse(n.func.value.value))
+            except ValueError:
+                parsed = None
+            for lit, field, spec, conv in parsed or []:
+                if lit:
+                    parts.append(ast.Constant(value=lit))
+                if field is None:
+                    continue
+                if field == "":
+                    idx = auto
+                    auto += 1
+                elif field.isdigit():
+                    idx = int(field)
+                else:
+                    ok = False
+                    break
+                if idx >= len(n.args) or (spec and ("{" in spec)):
+                    ok = False
+                    break
+                fv = ast.FormattedValue(value=copy.deepcopy(n.args[idx]), conversion=ord(conv) if conv else -1,
+                                        format_spec=ast.JoinedStr(values=[ast.Constant(value=spec)]) if spec else None)
+                parts.append(fv)
+            if parsed is not None and ok:
+                self.applied.append("str.format")
+                return ast.JoinedStr(values=parts)
+        return None
+
+    def visit_Attribute(self, n):
+        self.generic_visit(n)
+        # os.SEEK_SET / SEEK_CUR / SEEK_END  ->  0 / 1 / 2
+        if isinstance(n.ctx, ast.Load) and isinstance(n.value, ast.Name) and n.value.id in ("os", "io") and \
+                n.attr in ("SEEK_SET", "SEEK_CUR", "SEEK_END"):
+            self.applied.append("seek-const")
+            return ast.copy_location(ast.Constant(value={"SEEK_SET": 0, "SEEK_CUR": 1, "SEEK_END": 2}[n.attr]), n)
         return n
 
     def visit_Subscript(self, n):
@@ -1265,11 +1408,57 @@ def extend_to_appends(tree):
     return applied
 
 
+def negate(test):
+    """logical negation in a readable normal form"""
+    if isinstance(test, ast.UnaryOp) and isinstance(test.op, ast.Not):
+        return test.operand
+    if isinstance(test, ast.Compare) and len(test.ops) == 1:
+        inv = {ast.Is: ast.IsNot, ast.IsNot: ast.Is, ast.In: ast.NotIn, ast.NotIn: ast.In, ast.Eq: ast.NotEq, ast.NotEq: ast.Eq}
+        t = type(test.ops[0])
+        if t in inv:
+            return ast.Compare(left=test.left, ops=[inv[t]()], comparators=test.comparators)
+    return ast.UnaryOp(op=ast.Not(), operand=test)
+
+
+def continue_guards_to_ifs(tree):
+    """in a loop body, `if C: continue` followed by the rest of the body  ->  `if not C: <rest>` (guard clause and
+    nested form run the same statements under the same conditions)"""
+    applied = []
+    for x in ast.walk(tree):
+        if not isinstance(x, (ast.For, ast.While)):
+            continue
+        changed = True
+        while changed:
+            changed = False
+            stack = [x.body]
+            while stack:
+                blk = stack.pop()
+                for i, st in enumerate(blk):
+                    if isinstance(st, ast.If) and not st.orelse and len(st.body) == 1 and isinstance(st.body[0], ast.Continue) \
+                            and i + 1 < len(blk):
+                        new = ast.If(test=negate(st.test), body=blk[i + 1:], orelse=[])
+                        ast.copy_location(new, st)
+                        blk[i:] = [ast.fix_missing_locations(new)]
+                        applied.append("continue-guard")
+                        changed = True
+                        break
+                    # blocks in tail position of the loop body (nothing of this iteration runs after them): a
+                    # `continue` there skips exactly the rest of that block
+                    if i == len(blk) - 1:
+                        if isinstance(st, ast.If):
+                            stack.extend([st.body, st.orelse] if st.orelse else [st.body])
+                        elif isinstance(st, ast.With):
+                            stack.append(st.body)
+                if changed:
+                    break
+    return applied
+
+
 def normalise_idioms(tree):
     t = _Idioms()
     t.visit(tree)
     ast.fix_missing_locations(tree)
-    return t.applied + extend_to_appends(tree) + drop_dead_containers(tree) + io_comprehensions_to_loops(tree) + loops_to_comprehensions(tree)
+    return t.applied + continue_guards_to_ifs(tree) + extend_to_appends(tree) + drop_dead_containers(tree) + io_comprehensions_to_loops(tree) + loops_to_comprehensions(tree)
 
 
 # ------------------------------------------------------------------------------------------------ entry point
@@ -1348,6 +1537,47 @@ def split_disjoint_bindings(fn, cands):
     return applied
 
 
+def coalesce_aliases(fn, cands):
+    """`y = <value>` ... `x = y` where y is a new local bound once, x is bound only by that alias in the same block,
+    y is not read after the alias and x is not read between the two: y *is* x — rename it and drop the alias (what
+    inlining a helper that fills and returns its buffer leaves behind)"""
+    applied = []
+    again = True
+    while again:
+        again = False
+        counts = _bind_counts(fn)
+        for blk in VarInliner(fn, cands)._blocks(fn):
+            for j, st in enumerate(blk):
+                if not (isinstance(st, ast.Assign) and len(st.targets) == 1 and isinstance(st.targets[0], ast.Name)
+                        and isinstance(st.value, ast.Name)):
+                    continue
+                x, y = st.targets[0].id, st.value.id
+                if y not in cands or x == y or counts.get(y, 0) != 1 or counts.get(x, 0) != 1:
+                    continue
+                src = [i for i, t in enumerate(blk[:j]) if isinstance(t, ast.Assign) and len(t.targets) == 1
+                       and isinstance(t.targets[0], ast.Name) and t.targets[0].id == y]
+                if len(src) != 1:
+                    continue
+                i = src[0]
+                between = blk[i:j]
+                if any(isinstance(n, ast.Name) and n.id == x for t in between for n in ast.walk(t)):
+                    continue
+                inside = {id(n) for t in blk[i:j + 1] for n in ast.walk(t)}
+                if any(isinstance(n, ast.Name) and n.id == y and id(n) not in inside for n in ast.walk(fn)):
+                    continue
+                for t in between:
+                    for n in ast.walk(t):
+                        if isinstance(n, ast.Name) and n.id == y:
+                            n.id = x
+                del blk[j]
+                applied.append(f"{y}->{x}")
+                again = True
+                break
+            if again:
+                break
+    return applied
+
+
 def untuple_new_locals(fn, cands):
     """tuple bindings of locals the reference function does not have are taken apart so that the Inline Variable pass
     can remove them:  `a, b = x, y` -> `a = x; b = y`;  `a, b = v` -> `a = v[0]; b = v[1]`;  `for a, b in it:` ->
@@ -1387,6 +1617,33 @@ def untuple_new_locals(fn, cands):
                         applied.append(",".join(t.id for t in ts))
                         i += len(parts)
                         continue
+                    elif isinstance(s.value, ast.Call):
+                        # a, b = f(x)  ->  t = f(x); a = t[0]; b = t[1]   (t takes the reference's name, if it has one)
+                        name = f"_ut{fresh[0]}"
+                        fresh[0] += 1
+                        parts = [_assign(ast.Name(id=name, ctx=ast.Store()), s.value, s)]
+                        for k, t in enumerate(ts):
+                            v = ast.Subscript(value=ast.Name(id=name, ctx=ast.Load()), slice=ast.Constant(value=k), ctx=ast.Load())
+                            parts.append(_assign(t, v, s))
+                        blk[i:i + 1] = parts
+                        applied.append(",".join(t.id for t in ts))
+                        i += len(parts)
+                        continue
+                if isinstance(s, ast.For) and isinstance(s.target, (ast.Tuple, ast.List)):
+                    # a nested tuple in a loop target (for i, (a, b, c) in zip(..)) becomes one name read by position
+                    for k, e in enumerate(s.target.elts):
+                        if isinstance(e, (ast.Tuple, ast.List)) and new_names(e.elts):
+                            name = f"_ut{fresh[0]}"
+                            fresh[0] += 1
+                            for j, t in enumerate(e.elts):
+                                v = ast.Subscript(value=ast.Name(id=name, ctx=ast.Load()), slice=ast.Constant(value=j), ctx=ast.Load())
+                                for b in s.body + s.orelse:
+                                    _SubstLoad(t.id, v).visit(b)
+                            applied.append(",".join(t.id for t in e.elts))
+                            s.target.elts[k] = ast.copy_location(ast.Name(id=name, ctx=ast.Store()), e)
+                            ast.fix_missing_locations(s)
+                if isinstance(s, ast.Assign):
+                    pass
                 elif isinstance(s, ast.For) and isinstance(s.target, (ast.Tuple, ast.List)) and new_names(s.target.elts) \
                         and isinstance(s.iter, ast.Call) and _call_name(s.iter) == "zip" and not s.iter.keywords and \
                         len(s.iter.args) == len(s.target.elts) and all(_projectable(a) for a in s.iter.args) and \
@@ -1444,6 +1701,8 @@ def inline_new_locals(relpath, tree):
             applied.append((q, "untuple", v))
         params, local = alpha.function_locals(fn, g)
         cands = {n for n in local if n not in r["locals"] and n not in r["params"]}
+        for v in coalesce_aliases(fn, cands):
+            applied.append((q, "alias", v))
         for v in VarInliner(fn, cands).run():
             applied.append((q, "inline-var", v))
     return applied
